@@ -21,9 +21,13 @@ open Paloma.Abi Paloma.SignBytes Paloma.Attest
          a parameter list `Pack` refuses the arguments for.  Kept across `chain`, reset by `reset`.)
   rm <id>                                                                  → ok
   attestev <id> <shares addr:share,…> <totalShares> <evidence>…   (store order; one token each)
-        evidence: <addr>;tx;<hash>;<status|->;<data>;<deployLog 0|1>;<receiptVariant>[;<txEncoding>]
+        evidence: <addr>;tx;<hash>;<status|->;<data>;<deployLog 0|1>;<receiptVariant>[;<txEncoding>[;<sender|->]]
                     (txEncoding: 0 = canonical serialization (default), n = EIP-4844 network form with
-                     sidecar n; same <hash> = same remote transaction whatever the encoding)
+                     sidecar n; same <hash> = same remote transaction whatever the encoding;
+                     sender: the account recovered from the transaction's signature as a number, `-`
+                     (default) = the transaction carries no valid signature.  The model's router does
+                     not read it — `attest_ignores_the_sender` — so a sender-dependent verdict of the
+                     implementation shows as a differing line)
                 | <addr>;err;<n> | <addr>;other;<n>
       → as `attest`, with proc=<0|1 per distinct tx hash in order of first appearance>
   attest <id> none | err | other | tx <hash> <status|-> <data> <deployLog 0|1>
@@ -146,6 +150,13 @@ def parseEvidence? (s : String) : Option EvidenceV :=
     let st ← (if st == "-" then some none else (parseNat? st).map some)
     let p : TxProof := { hash := ← parseNat? h, data := ← Driver.C05.parseBytes? data, receipt := st,
                          deployLog := ← parseBool? log, variant := ← parseNat? var, enc := ← parseNat? enc }
+    pure (← parseNat? a, .tx p)
+  | [a, "tx", h, st, data, log, var, enc, snd] => do
+    let st ← (if st == "-" then some none else (parseNat? st).map some)
+    let snd ← (if snd == "-" then some none else (parseNat? snd).map some)
+    let p : TxProof := { hash := ← parseNat? h, data := ← Driver.C05.parseBytes? data, receipt := st,
+                         deployLog := ← parseBool? log, variant := ← parseNat? var, enc := ← parseNat? enc,
+                         sender := snd }
     pure (← parseNat? a, .tx p)
   | [a, "err", n] => do pure (← parseNat? a, .errorProof (← parseNat? n))
   | [a, "other", n] => do pure (← parseNat? a, .other (← parseNat? n))
